@@ -498,6 +498,23 @@ def verify_contract(con, registry, config=None):
     seg = _ast.get_source_segment(open(path).read(), fnode) or ''
     rep.source = {'file': os.path.relpath(path, REPO), 'qualname': qual, 'line': fnode.lineno,
                   'sha256': hashlib.sha256(seg.encode()).hexdigest(), 'lines': seg.count('\n') + 1}
+    from . import interp as _interp
+    _interp.INLINED_FILES.clear()
+    try:
+        return _verify_cases(con, registry, config, rep, fnode, clsname, qual)
+    finally:
+        # the path-shape guard of the lock compares runs on *unchanged* source: that includes every file whose
+        # functions were inlined while exploring this contract
+        h = hashlib.sha256(rep.source['sha256'].encode())
+        for f in sorted(_interp.INLINED_FILES):
+            try:
+                h.update(open(f, 'rb').read())
+            except OSError:
+                pass
+        rep.source['closure_sha256'] = h.hexdigest()
+
+
+def _verify_cases(con, registry, config, rep, fnode, clsname, qual):
     for case in con.active_cases():
         I = Interp(contracts=registry, config=config or {})
         I.active = con
